@@ -5,6 +5,13 @@ import logging
 
 logger = logging.getLogger('server')
 
+if (__name__ == '__main__' and sys.path and
+        os.path.abspath(sys.path[0] or '.') == os.path.dirname(os.path.abspath(__file__))):
+    # started as a script the interpreter puts this directory first on the
+    # path: the files of the package are no top-level modules for the code
+    # the server analyses
+    del sys.path[0]
+
 try:
     import supp
 except ImportError:
